@@ -402,4 +402,193 @@ theorem frameBase_key (d : Dev) (devName : String) (leds : List String) (shifted
             exact hne (Prod.ext hk hl1.symm)
           simp [hji]
 
+/-- an LED that belongs to no key of the keyboard mapping keeps, in the base frame, what the pre-frame shows -/
+theorem frameBase_other (d : Dev) (devName : String) (leds : List String) (shifted : RGB × RGB × RGB) (m : Mapping)
+    (i : Nat) (hil : i < leds.length)
+    (hno : ∀ q ∈ m.midi, q.1.1 = "" → alookup q.1.2 (indexMap leds) ≠ some i) :
+    ∃ pre base, framePre true d devName leds = .ok pre ∧ frameBase true d devName leds shifted m = .ok base ∧
+      pre.length = leds.length ∧ base.length = leds.length ∧ base[i]? = pre[i]? := by
+  obtain ⟨pre, hpre, hlen⟩ := framePre_isOk d devName leds
+  have hil' : i < pre.length := hlen ▸ hil
+  refine ⟨pre, applyW pre ((m.midi.filter (fun p => p.1.1 = "")).flatMap
+    (wKey (indexMap leds) m shifted (d.semitone + d.octave * 12))), hpre, ?_, hlen, by simpa using hlen, ?_⟩
+  · unfold frameBase
+    simp only
+    rw [hpre]
+    apply foldl_writes (n := leds.length) _ _ _ _ pre hlen
+    intro q l hl
+    unfold wKey
+    cases hq : alookup q.1.2 (indexMap leds) with
+    | none => rfl
+    | some j =>
+      simp only
+      split
+      · rfl
+      · have hj : j < l.length := hl ▸ indexMap_lt leds _ j hq
+        simp [setAt, hj, applyW]
+  · rw [applyW_get _ _ i hil', lastW_flatMap]
+    have : (m.midi.filter (fun p => p.1.1 = "")).reverse.findSome?
+        (fun x => lastW (wKey (indexMap leds) m shifted (d.semitone + d.octave * 12) x) i) = none := by
+      apply List.findSome?_eq_none_iff.mpr
+      intro q hq
+      have hq' : q ∈ m.midi ∧ q.1.1 = "" := by simpa using hq
+      unfold wKey
+      cases hqi : alookup q.1.2 (indexMap leds) with
+      | none => rfl
+      | some j =>
+        simp only
+        split
+        · rfl
+        · have hji : j ≠ i := by
+            intro e; subst e; exact hno q hq'.1 hq'.2 hqi
+          simp [lastW, hji]
+    rw [this]
+    simp [hil']
+
+/-! ### the action keys -/
+
+/-- the LED of the key an action is bound to -/
+def actionLed (cfg : Config) (leds : List String) (a : Action) : Option Nat :=
+  (actionCode cfg a).bind (fun code => alookup code (indexMap leds))
+
+/-- one checked action paint is one optional write -/
+theorem paintAction_write (cfg : Config) (leds : List String) (l : List RGB) (hl : l.length = leds.length) (a : Action) (c : RGB) :
+    paintAction true cfg (indexMap leds) (.ok l) a c =
+      .ok (applyW l (match actionLed cfg leds a with | some i => [(i, c)] | none => [])) := by
+  unfold paintAction actionLed
+  simp only [if_true]
+  cases actionCode cfg a with
+  | none => rfl
+  | some code =>
+    simp only [Option.bind_some]
+    cases hc : alookup code (indexMap leds) with
+    | none => rfl
+    | some i =>
+      have hi : i < l.length := hl ▸ indexMap_lt leds code i hc
+      simp [hi, applyW]
+
+def actionWrites (cfg : Config) (leds : List String) (ps : List (Action × RGB)) : List W :=
+  ps.flatMap (fun p => match actionLed cfg leds p.1 with | some i => [(i, p.2)] | none => [])
+
+theorem foldl_paintAction (cfg : Config) (leds : List String) (ps : List (Action × RGB)) :
+    ∀ (l : List RGB), l.length = leds.length →
+      ps.foldl (fun f p => paintAction true cfg (indexMap leds) f p.1 p.2) (.ok l) = .ok (applyW l (actionWrites cfg leds ps)) :=
+  foldl_writes (n := leds.length) _ _ (fun p l hl => paintAction_write cfg leds l hl p.1 p.2) ps
+
+/-- two different actions are never bound to the same key (the action table is a Go map keyed by key code) -/
+theorem actionCode_inj (cfg : Config) (hn : (akeys cfg.actions).Nodup) (a b : Action) (k : Nat)
+    (ha : actionCode cfg a = some k) (hb : actionCode cfg b = some k) : a = b := by
+  unfold actionCode at ha hb
+  obtain ⟨pa, hpa, rfl⟩ := Option.map_eq_some_iff.mp ha
+  obtain ⟨pb, hpb, hk⟩ := Option.map_eq_some_iff.mp hb
+  have ma := List.mem_of_find?_eq_some hpa
+  have mb := List.mem_of_find?_eq_some hpb
+  have ea : pa.2 = a := by simpa using List.find?_some hpa
+  have eb : pb.2 = b := by simpa using List.find?_some hpb
+  have l1 := alookup_of_mem_nodup hn (show (pa.1, pa.2) ∈ cfg.actions from ma)
+  have l2 := alookup_of_mem_nodup hn (show (pb.1, pb.2) ∈ cfg.actions from mb)
+  rw [hk, l1] at l2
+  simp only [Option.some.injEq] at l2
+  rw [← ea, ← eb, l2]
+
+/-- colour of the last paint of action `a` -/
+def lastPaint (ps : List (Action × RGB)) (a : Action) : Option RGB :=
+  match ps with
+  | [] => none
+  | p :: r => (lastPaint r a).or (if p.1 = a then some p.2 else none)
+
+theorem lastW_actionWrites (cfg : Config) (leds : List String) (hn : (akeys cfg.actions).Nodup)
+    (a : Action) (i : Nat) (hi : actionLed cfg leds a = some i) (ps : List (Action × RGB)) :
+    lastW (actionWrites cfg leds ps) i = lastPaint ps a := by
+  induction ps with
+  | nil => rfl
+  | cons p r ih =>
+    unfold actionWrites at ih ⊢
+    simp only [List.flatMap_cons, lastW_append, ih, lastPaint]
+    congr 1
+    by_cases hp : p.1 = a
+    · rw [hp, hi]; simp [lastW]
+    · simp only [hp, if_false]
+      cases hq : actionLed cfg leds p.1 with
+      | none => rfl
+      | some j =>
+        simp only [lastW, Option.none_or]
+        have hji : j ≠ i := by
+          intro e; subst e
+          -- both actions light LED j: same key, hence the same action
+          unfold actionLed at hq hi
+          cases hca : actionCode cfg p.1 with
+          | none => rw [hca] at hq; cases hq
+          | some k1 =>
+            cases hcb : actionCode cfg a with
+            | none => rw [hcb] at hi; cases hi
+            | some k2 =>
+              rw [hca] at hq; rw [hcb] at hi
+              simp only [Option.bind_some] at hq hi
+              have := indexMap_inj leds k1 k2 j hq hi
+              subst this
+              exact hp (actionCode_inj cfg hn _ _ _ hca hcb)
+        simp [hji]
+
+/-- **action keys**: in the frame before the keyboard mapping is painted, the LED of the key an action is bound to shows
+    the colour of the last paint of that action — provided no strip LED shares its index -/
+theorem framePre_action (d : Dev) (devName : String) (leds : List String) (hn : (akeys d.cfg.actions).Nodup)
+    (a : Action) (i : Nat) (hi : actionLed d.cfg leds a = some i) :
+    ∃ strip pre, frameStrip true d devName leds = .ok strip ∧ framePre true d devName leds = .ok pre ∧
+      strip.length = leds.length ∧ pre.length = leds.length ∧
+      pre[i]? = some ((lastPaint (actionPaints d) a).getD strip[i]!) := by
+  have hs : IsOk leds.length (frameStrip true d devName leds) := by
+    unfold frameStrip
+    simp only [if_true]
+    apply foldl_isOk
+    · intro f name hf
+      split
+      · rename_i j hj; exact setAt_isOk hf j off (nameToIndex_lt leds name j hj)
+      · exact hf
+    · exact ⟨_, rfl, by simp⟩
+  obtain ⟨strip, hstrip, hlen⟩ := hs
+  have hil : i < strip.length := by
+    unfold actionLed at hi
+    cases hc : actionCode d.cfg a with
+    | none => rw [hc] at hi; cases hi
+    | some k => rw [hc] at hi; simp only [Option.bind_some] at hi; rw [hlen]; exact indexMap_lt leds k i hi
+  refine ⟨strip, applyW strip (actionWrites d.cfg leds (actionPaints d)), hstrip, ?_, hlen, by simpa using hlen, ?_⟩
+  · unfold framePre
+    rw [hstrip, foldl_paintAction d.cfg leds _ strip hlen]
+  · rw [applyW_get _ _ i hil, lastW_actionWrites d.cfg leds hn a i hi]
+    congr 1
+    cases lastPaint (actionPaints d) a with
+    | some c => rfl
+    | none => simp [hil]
+
+theorem lastPaint_append (a b : List (Action × RGB)) (x : Action) :
+    lastPaint (a ++ b) x = (lastPaint b x).or (lastPaint a x) := by
+  induction a with
+  | nil => simp [lastPaint]
+  | cons p r ih => simp only [List.cons_append, lastPaint, ih, Option.or_assoc]
+
+theorem lastPaint_ite (c : Prop) [Decidable c] (p : Action × RGB) (x : Action) :
+    lastPaint (if c then [p] else []) x = if c ∧ p.1 = x then some p.2 else none := by
+  by_cases hc : c <;> by_cases hp : p.1 = x <;> simp [hc, hp, lastPaint]
+
+/-- what each indicator key shows (the colour of the last paint of its action) -/
+theorem lastPaint_values (d : Dev) :
+    lastPaint (actionPaints d) .panic = some red ∧
+    lastPaint (actionPaints d) .octaveUp = some (if d.octave > 0 then (if d.octave = 1 then white2 else white3) else white1) ∧
+    lastPaint (actionPaints d) .octaveDown = some (if d.octave < 0 then (if d.octave = -1 then white2 else white3) else white1) ∧
+    lastPaint (actionPaints d) .semitoneUp = some (if d.semitone > 0 then (if d.semitone = 1 then white2 else white3) else white1) ∧
+    lastPaint (actionPaints d) .semitoneDown = some (if d.semitone < 0 then (if d.semitone = -1 then white2 else white3) else white1) ∧
+    lastPaint (actionPaints d) .mappingUp = some (if (d.mapping : Int) = (d.cfg.maps.length : Int) - 1 then white1 else white3) ∧
+    lastPaint (actionPaints d) .mappingDown = some (if d.mapping = 0 then white1 else white3) ∧
+    lastPaint (actionPaints d) .channelUp = some (if d.channel = 15 then third (chanColor d.channel) else chanColor d.channel) ∧
+    lastPaint (actionPaints d) .channelDown = some (if d.channel = 0 then third (chanColor d.channel) else chanColor d.channel) ∧
+    lastPaint (actionPaints d) .multinote = some white1 ∧
+    lastPaint (actionPaints d) .mapping = none ∧ lastPaint (actionPaints d) .channel = none ∧
+    lastPaint (actionPaints d) .learning = none ∧ lastPaint (actionPaints d) .exit = none ∧
+    lastPaint (actionPaints d) .none = none := by
+  unfold actionPaints
+  simp only [lastPaint_append, lastPaint_ite, lastPaint, reduceCtorEq, if_false, if_true, and_false, and_true, Option.or_none,
+    Option.none_or, Option.some_or, Option.or_some]
+  (repeat' apply And.intro) <;> (repeat' split) <;> simp_all
+
 end Hidi.LedSpec
